@@ -5,7 +5,7 @@
 use crate::rng::Rng;
 use crate::tygen::{Def, Module};
 
-pub const KINDS: usize = 12;
+pub const KINDS: usize = 13;
 
 /// `(tag, items)`; `items` goes inside the bridge module
 pub fn extras(rng: &mut Rng, m: &Module, option: bool) -> (String, String) {
@@ -113,6 +113,12 @@ pub fn snippet(rng: &mut Rng, k: usize, opaque: &str, enm: Option<&str>, option:
             "    #[diplomat::opaque]\n    #[diplomat::demo(custom_func = \"custom.mjs\")]\n    pub struct XtDemo;\n    impl XtDemo {{\n        #[diplomat::demo(default_constructor)]\n        pub fn make(#[diplomat::demo(input(label = \"Start value\"))] v: {p}) -> Box<XtDemo> {{ unimplemented!() }}\n        #[diplomat::demo(generate)]\n        pub fn show(&self, w: &mut DiplomatWrite) {{ unimplemented!() }}\n        pub fn with_other(&self, o: &{opaque}, s: &str, w: &mut DiplomatWrite) {{ unimplemented!() }}\n    }}\n    #[diplomat::opaque]\n    #[diplomat::demo(external)]\n    pub struct XtExt;\n    impl XtExt {{ pub fn use_it(&self, w: &mut DiplomatWrite) {{ unimplemented!() }} }}\n")),
         10 => ("error-types", format!(
             "    #[diplomat::attr(auto, error)]\n    pub enum XtErrE {{ Bad, Worse }}\n    #[diplomat::attr(auto, error)]\n    pub struct XtErrS {{ pub code: {p} }}\n    #[diplomat::opaque]\n    #[diplomat::attr(auto, error)]\n    pub struct XtErrO;\n    impl XtErrO {{\n        pub fn a(&self) -> Result<{p}, XtErrE> {{ unimplemented!() }}\n        pub fn b(&self) -> Result<(), XtErrS> {{ unimplemented!() }}\n        pub fn c(&self) -> Result<Box<XtErrO>, Box<XtErrO>> {{ unimplemented!() }}\n        pub fn d(&self, w: &mut DiplomatWrite) -> Result<(), XtErrE> {{ unimplemented!() }}\n    }}\n")),
+        12 => {
+            // two types whose C++ names coincide in different namespaces, and a header that needs both
+            let (a, b) = *rng.pick(&[("geo", "screen"), ("a::b", "a::c"), ("outer", "outer::inner")]);
+            ("same-name-namespaces", format!(
+                "    #[diplomat::attr(auto, namespace = \"{a}\")]\n    #[diplomat::attr(cpp, rename = \"Point\")]\n    pub struct XtGeoPoint {{ pub x: {p} }}\n    #[diplomat::attr(auto, namespace = \"{b}\")]\n    #[diplomat::attr(cpp, rename = \"Point\")]\n    pub struct XtScreenPoint {{ pub x: {p}, pub y: u8 }}\n    #[diplomat::opaque]\n    #[diplomat::attr(auto, namespace = \"{a}\")]\n    #[diplomat::attr(cpp, rename = \"Handle\")]\n    pub struct XtGeoHandle;\n    #[diplomat::opaque]\n    #[diplomat::attr(auto, namespace = \"{b}\")]\n    #[diplomat::attr(cpp, rename = \"Handle\")]\n    pub struct XtScreenHandle;\n    #[diplomat::opaque]\n    pub struct XtProjector;\n    impl XtProjector {{\n        pub fn project(&self, p: XtGeoPoint) -> XtScreenPoint {{ unimplemented!() }}\n        pub fn handles<'a>(&'a self, g: &'a XtGeoHandle, s: &'a XtScreenHandle) -> &'a XtScreenHandle {{ unimplemented!() }}\n    }}\n"))
+        }
         _ => ("struct-values", format!(
             "    #[diplomat::opaque]\n    pub struct XtUser;\n    impl XtUser {{\n        pub fn both(&self, s: XtPlain, t: XtNest) -> XtNest {{ unimplemented!() }}\n        pub fn opt(&self, s: XtPlain) -> Option<XtNest> {{ unimplemented!() }}\n        pub fn res(&self) -> Result<XtPlain, XtNest> {{ unimplemented!() }}\n    }}\n    pub struct XtPlain {{ pub a: {p}, pub b: bool }}\n    pub struct XtNest {{ pub x: u8, pub inner: XtPlain, pub y: {p} }}\n    impl XtNest {{ pub fn make(inner: XtPlain) -> XtNest {{ unimplemented!() }} }}\n")),
     }
